@@ -1037,7 +1037,7 @@ func (c *compiler) compileFunc(e *Func) error {
 			[3]any{fn.callback, len(e.Args), e.Name},
 			e.Args,
 			true,
-			-1,
+			0, // evaluate the arguments as values even in path expressions
 		); err != nil {
 			return err
 		}
